@@ -1,5 +1,6 @@
 import Jap.Lemmas.Namespace
 import Jap.Gen.YesNoWords
+import Jap.Gen.ChannelTables
 /-!
 E5 "Channels" — the CHANNEL layer of the parser (property C05).
 
@@ -851,5 +852,26 @@ def goodSettings (P : Parser) (S : Settings) : Bool :=
 /-- the base namespace holds every key of the settings (true of the defaults: every argument has one) -/
 def covers (P : Parser) (S : Settings) (ns : KV) : Bool :=
   S.all (fun kv => (getK (skeys P kv.1.segs) ns).isSome)
+
+/-! ## branch keys (`_actions._is_branch_key`, parsers without sub-commands)
+
+A key of a document / object that has no action is an inner node of the option tree iff some dest starts with
+`key + "."` (whether the source has the `+ "."` is regenerated: Gen/ChannelTables). -/
+
+def isBranchKey (P : Parser) (key : List Char) : Bool :=
+  P.decls.any (fun d => (if Jap.Gen.branchKeyDotBoundary then key ++ ['.'] else key).isPrefixOf (destL d.key))
+
+/-! ## an `ActionParser` group in the environment
+
+`_load_env_vars` walks `parser._actions` in order and assigns `cfg[action.dest]`.  The group-level variable
+(`APP_INNER`, a mapping for the whole branch) replaces the branch; the leaf variables (`APP_INNER__X`) refine it.
+`groupFirst`: the group-level action is registered before the group's leaves (regenerated: Gen/ChannelTables). -/
+
+def envGroup (groupFirst : Bool) (g : List SKey) (mapping : KV) (leaves : Asg) (ns : KV) : KV :=
+  if groupFirst then assign leaves (setK g (.ns mapping) ns) else setK g (.ns mapping) (assign leaves ns)
+
+/-- the order the code has -/
+def envGroupCode (g : List SKey) (mapping : KV) (leaves : Asg) (ns : KV) : KV :=
+  envGroup Jap.Gen.groupActionFirst g mapping leaves ns
 
 end Jap.Channels
